@@ -114,3 +114,24 @@ func referrers(v ssa.Value) []ssa.Instruction {
 	}
 	return nil
 }
+
+// resolveLocal sees through a spilled local: a load of an Alloc that has exactly one store in the
+// function (parameters captured by closures are spilled this way) yields the stored value.
+func resolveLocal(v ssa.Value) ssa.Value {
+	for i := 0; i < 4; i++ {
+		u, ok := v.(*ssa.UnOp)
+		if !ok || u.Op != token.MUL {
+			return v
+		}
+		a, ok := u.X.(*ssa.Alloc)
+		if !ok {
+			return v
+		}
+		st := core.StoresTo(a)
+		if len(st) != 1 {
+			return v
+		}
+		v = st[0]
+	}
+	return v
+}
